@@ -659,8 +659,7 @@ def table_diff(fd, exp):
     for what in ('name', 'is_function', 'is_method', 'no_kwargs'):
         if getattr(fd, what) != getattr(exp, what):
             out.append('%s: real %r, documented %r' % (what, getattr(fd, what), getattr(exp, what)))
-    if any(k not in fd.meta or fd.meta[k] != v for k, v in exp.meta.items()):     # declared entries are there
-        out.append('meta: real %r, declared by @specs.meta %r' % (dict(fd.meta), dict(exp.meta)))
+    # (fd.meta is not compared: what the metadata dictionary holds does not enter resolution)
     if set(fd.parameters) != set(exp.parameters):
         out.append('parameter keys: real %r, documented %r' % (sorted(fd.parameters), sorted(exp.parameters)))
         return out
